@@ -46,8 +46,9 @@ RULE = ("cases = every finished behaviour of the bounded Level-B models of Train
 
 A_COMMON = ["the harness projects saved state after every step() (save_interval Some(1)); the projection divides by "
             "constants (g, rho_air) or logged fields only (documented at the top of avh_trainsim.rs)",
-            "set-speed runs: the initial state agrees with the first trace point in speed, and in time unless the run keeps "
-            "the default initial clock (then the initial record's time and KinTime of step 1 are not judged); traces stay "
+            "set-speed runs: the initial state agrees with the first trace point in speed and time, unless the run keeps the "
+            "default initial clock / the default initial speed 0 (rolling start): then the initial record's time / speed and "
+            "KinTime / KinOffset of step 1 are not judged (all power relations of step 1 are); traces stay "
             "inside the route; trip getters of set-speed runs are read through a SpeedLimitTrainSim assembled from the "
             "final state, and only after runs that were not refused mid-step (an Err leaves the consist half-updated)"]
 A_TOY = ["multiplicative relations are decided on toy-scale dyadic runs (16/32 m cars of 1024/2048 kg, elevations in 1/64 m, "
